@@ -5,7 +5,7 @@
 From Coq Require Import List Arith Bool Lia.
 From QV Require Import C09.Trace C09.ModelRouter C09.ModelBlocks C09.ModelStar C09.ProofsRouter C09.ProofsSem
                        C09.ProofsGuards C09.ProofsBlocks C09.ProofsBlocksEquiv C09.ProofsStar
-                       C09.ModelDag C09.ProofsDag C09.ProofsCompose.
+                       C09.ModelDag C09.ProofsDag C09.ProofsCompose C09.ProofsFrontBridge C09.ProofsProgress.
 Import ListNotations.
 
 (* 1. the two maps stay mutually inverse bijections of 0..n-1 (the final layout is a bijection),
@@ -222,6 +222,80 @@ Example dag_example :
   tr_okb (create_dag_edges bl) [(0,1); (1,2)] = true /\
   dag_front [(0,1); (1,2)] 4 [] = [0; 3] /\ spec_front bl [0] = [1; 3].
 Proof. repeat split; reflexivity. Qed.
+
+(* 11. the front guard of the transition system IS the specification of the DAG front layer:
+       along every run, block j passes in_front iff j is in spec_front of the executed names
+       (with dag_front_sound: iff j is in the front layer the real DAG yields) *)
+Theorem front_guard_is_dag_spec : forall n chk items ops s j,
+  named items -> j < length items ->
+  run n chk (init n items) ops = Some s ->
+  (in_front s j = true <-> In j (spec_front (map iqs items) (map iname (done s)))).
+Proof. exact front_guard_is_spec_front. Qed.
+Print Assumptions front_guard_is_dag_spec.
+
+(* 12. measured registers report the same logical outcomes, for every equivariant read-out *)
+Theorem registers_ok : forall n (I : interp n) (O : Type) (obs : list nat -> iS n I -> O),
+  (forall qs x y, ieq n I x y -> obs qs x = obs qs y) ->
+  (forall f qs x, perm_on n f -> (forall q, In q qs -> q < n) -> obs (map f qs) (ipact n I f x) = obs qs x) ->
+  forall G gs body finals items ops s m,
+  detach_final gs = (body, finals) ->
+  gates_ok0 (split_meas body) ->
+  (forall g q, In g (split_meas body) -> In q (gqs g) -> q < n) ->
+  (forall g q, In g finals -> In q (gqs g) -> q < n) ->
+  block_decomposition n body = Some items ->
+  run n (full_guard G) (init n items) ops = Some s -> rem s = [] ->
+  In m finals ->
+  forall x,
+    In (relabel (l2p s) m) (append_final (l2p s) finals) /\
+    gqs (relabel (l2p s) m) = map (at_ (l2p s)) (gqs m) /\
+    obs (gqs (relabel (l2p s) m)) (irun I (eflat (out s)) x) = obs (gqs m) (irun I (split_meas body) x).
+Proof. exact registers_report_same_outcomes. Qed.
+Print Assumptions registers_ok.
+
+(* 13. progress: the models cannot loop.  Executing strictly decreases the number of remaining
+       blocks; a swap round of ShortestPaths (_find_new_mapping/_add_swaps along a simple path of
+       the graph between the two qubits of the front block) and Sabre's reset path
+       (_shortest_path_routing, taken when swap_threshold is exceeded) leave the remaining blocks
+       unchanged and make that block executable, so the next _check_execution decreases the measure.
+       (Sabre's ordinary heuristic swaps have no such guarantee: that is what the threshold is for.)
+       The star router is a structural recursion: at most one SWAP per gate. *)
+Theorem progress_exec : forall n s nm s',
+  step n s (OExec nm) = Some s' -> length (rem s') < length (rem s).
+Proof. exact exec_decreases. Qed.
+Print Assumptions progress_exec.
+
+Theorem progress_ShortestPaths : forall n G path mp s la lb,
+  graph_ok n G -> wf_maps n (l2p s) (p2l s) ->
+  is_path G path = true -> NoDup path -> mp + 1 < length path ->
+  la < n -> lb < n -> at_ (l2p s) la = hd 0 path -> at_ (l2p s) lb = last path 0 ->
+  exists s', apply_swaps n (guard_edge G) s (add_swaps_ops path mp) = Some s' /\
+             rem s' = rem s /\
+             has_edge G (at_ (l2p s') la) (at_ (l2p s') lb) = true /\
+             forall nm pre it post,
+               extract (fun it0 => iname it0 =? nm) (rem s') = Some (pre, it, post) ->
+               iqs it = [la; lb] -> edge_ok G s' nm = true.
+Proof. exact shortest_paths_find_new_mapping_progress. Qed.
+Print Assumptions progress_ShortestPaths.
+
+Theorem progress_Sabre_reset : forall n G c mid z s q1 q2,
+  graph_ok n G -> wf_maps n (l2p s) (p2l s) ->
+  is_path G (c :: mid ++ [z]) = true -> NoDup (c :: mid ++ [z]) ->
+  q1 < n -> q2 < n -> at_ (l2p s) q1 = c -> at_ (l2p s) q2 = z ->
+  exists s', apply_swaps n (guard_edge G) s (sabre_sp_ops (c :: mid ++ [z]) q1) = Some s' /\
+             rem s' = rem s /\
+             has_edge G (at_ (l2p s') q1) (at_ (l2p s') q2) = true.
+Proof. exact sabre_shortest_path_routing_progress. Qed.
+Print Assumptions progress_Sabre_reset.
+
+Theorem progress_Star : forall mid queue l acc o l',
+  star_loop mid l queue acc = Some (o, l') -> length o <= length acc + 2 * length queue.
+Proof. exact star_loop_bound. Qed.
+Print Assumptions progress_Star.
+
+Example progress_example :
+  exists s', apply_swaps 6 (guard_edge line6) (init 6 []) (add_swaps_ops [0;1;2;3;4;5] 2) = Some s' /\
+             at_ (l2p s') 0 = 2 /\ at_ (l2p s') 5 = 3.
+Proof. eexists. split; [vm_compute; reflexivity|]. split; reflexivity. Qed.
 
 (* ---- non-vacuity *)
 (* a guarded run that needs a SWAP: line 0-1-2, one block CZ(0,2) *)
